@@ -2,6 +2,6 @@ SPECIFICATION Spec
 CONSTANTS
   MaxLen = 24
   Detect = FALSE
-  Tr = "sgio"
+  Tr = "iscsi"
 INVARIANT SameMedium
 CHECK_DEADLOCK FALSE
